@@ -18,7 +18,7 @@ import (
 )
 
 type Step struct {
-	// Kind: waitDirect | waitClient | request
+	// Kind: waitDirect | waitClient | request | ownerClose (the owner calls Close; only acted on while the agent is locked, when it is refused)
 	Kind string
 	Code int
 }
@@ -199,6 +199,9 @@ func exec(c Case) (vh.Outcome, error) {
 				if k == code {
 					return vh.Errf("%s: %d of %d waiters on code %d are still registered after a request with that code", where, after[k], before[k], code)
 				}
+				if code >= 1000 {
+					return vh.Errf("%s: the waiters of code %d changed from %d to %d", where, k, before[k], after[k])
+				}
 				return vh.Errf("%s: a request with code %d changed the waiters of code %d from %d to %d", where, code, k, before[k], after[k])
 			}
 		}
@@ -225,6 +228,9 @@ func exec(c Case) (vh.Outcome, error) {
 			for _, w := range ws {
 				select {
 				case werr := <-w.done:
+					if code >= 1000 {
+						return vh.Errf("%s: waiter %d on code %d returned (%v)", where, w.id, k, werr)
+					}
 					return vh.Errf("%s: waiter %d on code %d returned (%v) although only a request with code %d was received", where, w.id, k, werr, code)
 				default:
 				}
@@ -233,6 +239,7 @@ func exec(c Case) (vh.Outcome, error) {
 		return nil
 	}
 
+	lockedNow, closeRefused := false, false
 	for i, st := range c.Steps {
 		where := fmt.Sprintf("step %d (%s %d)", i, st.Kind, st.Code)
 		before, _ := waiterCounts(srv)
@@ -344,6 +351,24 @@ func exec(c Case) (vh.Outcome, error) {
 				active[st.Code] = append(active[st.Code], w)
 				mu.Unlock()
 			}
+		case "ownerClose":
+			// the owner of the agent calls Close while the agent is locked: the call is refused, the agent
+			// stays in service, no request was received - nobody may be released
+			if !lockedNow {
+				continue
+			}
+			var cerr error
+			if perr := vh.Catch(func() { cerr = srv.Close() }); perr != nil {
+				return out, vh.Errf("%s: Close crashed: %v", where, perr)
+			}
+			if cerr == nil {
+				return out, nil // the agent is gone (whether a locked agent may be closed is C08's subject): nothing more to observe
+			}
+			closeRefused = true
+			time.Sleep(50 * time.Millisecond)
+			if e := release(where+" (the owner's Close call, refused with \""+cerr.Error()+"\"; no request was received)", 1000, before); e != nil {
+				return out, e
+			}
 		case "request":
 			pending = nil
 			if c.Prunable {
@@ -376,7 +401,17 @@ func exec(c Case) (vh.Outcome, error) {
 			if e := release(where, st.Code, before); e != nil {
 				return out, e
 			}
+			// the lock state of the agent, as the well-formed lock / unlock requests (one passphrase) leave it
+			if st.Code == 22 && len(reqFor(22)) > 1 {
+				lockedNow = true
+			}
+			if st.Code == 23 {
+				lockedNow = false
+			}
 		}
+	}
+	if closeRefused {
+		out.Classes = append(out.Classes, "owner-close-refused-while-locked")
 	}
 	// clean up: wake everybody with a matching request, everybody must return
 	mu.Lock()
@@ -465,11 +500,14 @@ func gen(t *rapid.T) Case {
 			code = rapid.OneOf(rapid.SampledFrom([]int{1, 11, 12, 18, 22, 22, 23, 33, 34, 36, 38, 40, 100}), rapid.IntRange(0, 255)).Draw(t, l+"OC")
 		}
 		c.Steps = append(c.Steps, Step{Kind: k, Code: code})
+		if len(c.Steps) > 0 && c.Steps[0].Kind == "request" && c.Steps[0].Code == 22 && waiters > 0 && rapid.IntRange(0, 5).Draw(t, l+"OwnerClose") == 3 {
+			c.Steps = append(c.Steps, Step{Kind: "ownerClose"})
+		}
 	}
 	return c
 }
 
-const rule = "harness-owned schedules over one real NewServer(remote=true): 1..14 steps {start a waiter on code c directly, start a waiter through its own client connection (which is itself a request with code 35), send a request whose first byte is c' on another connection and read its response}, up to 8 waiters on 1..4 codes drawn from 0..255 with weight on 0, 11, 13, 19, 31, 32, 35, 39, 40, 41, 255, requests also with unrelated codes, among them well-formed lock (22) and unlock (23) requests, and a quarter of the schedules lock the agent first (class wait-started-while-agent-locked): whether the agent is locked is not part of when a waiter is released. In a third of the schedules an expired certificate is put into the underlying agent before every request, so that list requests make the shim purge (and talk to the underlying agent) on its own: what the shim does by itself releases nobody either. The executor advances only on observed states: a waiter counts as registered when the waiter count of its code's condition variable (read with reflect) reached the expected value; a request is done when its response was read. Oracle after every request with code c': registered waiters of c' = 0 and exactly those waiters return (a released waiter that does not return within 15 s is a lost wake-up), waiter counts of every other code unchanged and none of their waiters returned; codes >= 40 return immediately; all remaining waiters are woken by matching requests at the end; the race detector is an additional oracle. Non-trivial: >= 2 blocking waiters and a non-matching request while somebody waits (class waiters-on-2+-codes counts the schedules with several codes)."
+const rule = "harness-owned schedules over one real NewServer(remote=true): 1..14 steps {start a waiter on code c directly, start a waiter through its own client connection (which is itself a request with code 35), send a request whose first byte is c' on another connection and read its response}, up to 8 waiters on 1..4 codes drawn from 0..255 with weight on 0, 11, 13, 19, 31, 32, 35, 39, 40, 41, 255, requests also with unrelated codes, among them well-formed lock (22) and unlock (23) requests, and a quarter of the schedules lock the agent first (class wait-started-while-agent-locked): whether the agent is locked is not part of when a waiter is released; in locked schedules the owner of the agent may call Close in between, which a locked agent refuses (class owner-close-refused-while-locked): a refused call is no request and releases nobody. In a third of the schedules an expired certificate is put into the underlying agent before every request, so that list requests make the shim purge (and talk to the underlying agent) on its own: what the shim does by itself releases nobody either. The executor advances only on observed states: a waiter counts as registered when the waiter count of its code's condition variable (read with reflect) reached the expected value; a request is done when its response was read. Oracle after every request with code c': registered waiters of c' = 0 and exactly those waiters return (a released waiter that does not return within 15 s is a lost wake-up), waiter counts of every other code unchanged and none of their waiters returned; codes >= 40 return immediately; all remaining waiters are woken by matching requests at the end; the race detector is an additional oracle. Non-trivial: >= 2 blocking waiters and a non-matching request while somebody waits (class waiters-on-2+-codes counts the schedules with several codes)."
 
 func TestC20Wait(t *testing.T) {
 	vh.Run(t, vh.Spec[Case]{Property: "C20", Name: "TestC20Wait", Rule: rule, Gen: gen, Exec: exec, Journal: true})
